@@ -80,6 +80,37 @@ func (p *flowProto) histTpl(r *rand.Rand, id int) tpl {
 	}
 }
 
+// relength: the same elements in the same order, with at least one field length changed
+// (reduced-size / over-long encodings; records stay longer than 4 octets)
+func (p *flowProto) relength(r *rand.Rand, t tpl) tpl {
+	for tries := 0; tries < 50; tries++ {
+		n := tpl{id: t.id, opts: t.opts}
+		changed := false
+		ch := func(s fspec) fspec {
+			if r.Intn(2) == 0 {
+				old := s.ln
+				if old == 65535 {
+					s.ln = 1 + r.Intn(12)
+				} else {
+					s.ln = 1 + r.Intn(16)
+				}
+				changed = changed || s.ln != old
+			}
+			return s
+		}
+		for _, s := range t.scope {
+			n.scope = append(n.scope, ch(s))
+		}
+		for _, s := range t.fields {
+			n.fields = append(n.fields, ch(s))
+		}
+		if changed && recLen(p, n) > 4 && allKnown(p, n) {
+			return n
+		}
+	}
+	return p.histTpl(r, t.id)
+}
+
 func (p *flowProto) genHist(r *rand.Rand, n int, w *bufio.Writer) {
 	initElems()
 	ver := 10
@@ -124,6 +155,10 @@ func (p *flowProto) genHist(r *rand.Rand, n int, w *bufio.Writer) {
 			switch k := r.Intn(10); {
 			case k < 4 || !have && k < 6: // (re-)announce, possibly with a different definition, then maybe data in the same message
 				t := p.histTpl(r, id)
+				if have && r.Intn(2) == 0 {
+					// the subtle kind of redefinition: same elements in the same order, only the encoded lengths differ
+					t = p.relength(r, known)
+				}
 				ref[refKey{string(addr), id}] = t
 				msg = append(msg, p.tplSetBytes(t)...)
 				recs := ""
